@@ -40,7 +40,8 @@ type Block struct {
 	Txs      []Tx `json:"txs"`
 	Prefetch bool `json:"prefetch,omitempty"`
 	// C14
-	CopyAt  int  `json:"copy_at"` // Copy() after this many txs of the block (-1 = never)
+	CopyAt  int  `json:"copy_at"`  // Copy() after this many txs of the block (-1 = never)
+	CopyMid int  `json:"copy_mid"` // >= 0: Copy() inside tx CopyAt, before its op CopyMid or at the next point of call depth 0; CopyTxs[0] then continues that tx on the copy
 	CopyTxs []Tx `json:"copy_txs,omitempty"`
 	Flush   bool `json:"flush,omitempty"`  // push everything to disk after the commit (no restart)
 	Reopen  int  `json:"reopen,omitempty"` // 0 no, 1 clean restart via journal, 2 clean restart after full flush
@@ -217,6 +218,9 @@ func nonceDelta(v uint64) uint64 {
 
 // ---- generation
 
+// gatedShare is the fraction of plans whose disk reads are scheduler gates.
+var gatedShare = 0.04
+
 type genCfg struct {
 	prop                       string
 	maxBlocks, maxTxs, maxOps  int
@@ -251,6 +255,10 @@ func Gen(r *simcore.Rand, prop string) *Plan {
 		p.Snap = r.Bool(0.5)
 	}
 	p.Cache = r.Bool(0.3)
+	if r.Bool(gatedShare) {
+		p.Gated = true
+		p.Tape = r.Tape(600)
+	}
 	var nblocks int
 	switch prop {
 	case "C14":
@@ -288,7 +296,7 @@ func Gen(r *simcore.Rand, prop string) *Plan {
 			}
 			rules = eff
 		}
-		blk := Block{Rules: rules, CopyAt: -1, Prefetch: r.Bool(0.4)}
+		blk := Block{Rules: rules, CopyAt: -1, CopyMid: -1, Prefetch: r.Bool(0.4)}
 		ntx := r.Range(0, 5)
 		if r.Bool(0.8) && ntx == 0 {
 			ntx = 1
@@ -299,9 +307,23 @@ func Gen(r *simcore.Rand, prop string) *Plan {
 			copyAt = r.Intn(ntx + 1)
 		}
 		var fork *exec
+		mid := copyAt >= 0 && copyAt < ntx && r.Bool(0.4)
 		for t := 0; t < ntx; t++ {
-			if t == copyAt {
+			if t == copyAt && !mid {
 				fork = &exec{m: g.m.Fork()}
+			}
+			if t == copyAt && mid {
+				blk.CopyMid = r.Intn(8)
+				tx := genTxMid(r, g, prop, t, blk.CopyMid, func() {
+					// the copy continues this transaction with its own operations
+					fork = &exec{m: g.m.Fork()}
+					cont := Tx{Sender: 0, Dst: -1}
+					genOps(r, fork, prop, &cont)
+					fork.endTx(&cont)
+					blk.CopyTxs = append(blk.CopyTxs, cont)
+				})
+				blk.Txs = append(blk.Txs, tx)
+				continue
 			}
 			blk.Txs = append(blk.Txs, genTx(r, g, prop, t))
 		}
@@ -312,7 +334,7 @@ func Gen(r *simcore.Rand, prop string) *Plan {
 			blk.CopyAt = copyAt
 			nct := r.Range(0, 3)
 			for t := 0; t < nct; t++ {
-				blk.CopyTxs = append(blk.CopyTxs, genTx(r, fork, prop, copyAt+t))
+				blk.CopyTxs = append(blk.CopyTxs, genTx(r, fork, prop, copyAt+len(blk.CopyTxs)))
 			}
 		}
 		if prop == "C14" {
@@ -332,6 +354,14 @@ func Gen(r *simcore.Rand, prop string) *Plan {
 }
 
 func genTx(r *simcore.Rand, g *exec, prop string, ti int) Tx {
+	return genTxMid(r, g, prop, ti, -1, nil)
+}
+
+// genTxMid generates one transaction; if midAt >= 0, onMid is called at the
+// point where the executor will take a mid-transaction copy (before the first
+// operation with index >= midAt at call depth 0, else after the last frame has
+// been closed).
+func genTxMid(r *simcore.Rand, g *exec, prop string, ti int, midAt int, onMid func()) Tx {
 	tx := Tx{Sender: 0, Dst: r.Range(-1, NA-1)}
 	rules := g.m.rules
 	if rules >= REIP158 && r.Bool(0.3) {
@@ -345,13 +375,33 @@ func genTx(r *simcore.Rand, g *exec, prop string, ti int) Tx {
 		}
 	}
 	g.beginTx(&tx, 0, ti)
+	genOpsMid(r, g, prop, &tx, midAt, onMid)
+	if rules == RPre158 {
+		tx.Root = r.Bool(0.6)
+	} else {
+		tx.Root = r.Bool(0.15)
+	}
+	g.endTx(&tx)
+	return tx
+}
+
+func genOps(r *simcore.Rand, g *exec, prop string, tx *Tx) { genOpsMid(r, g, prop, tx, -1, nil) }
+
+func genOpsMid(r *simcore.Rand, g *exec, prop string, tx *Tx, midAt int, onMid func()) {
 	nops := r.Range(0, 12)
 	if r.Bool(0.35) {
 		nops = r.Range(10, 40)
 	}
 	sweepy := prop != "C15" // in C15 runs full sweeps inside a tx would make every item a recorded read
 	var lastStore *Op
+	mid := func() {
+		if midAt >= 0 && len(tx.Ops) >= midAt && g.m.Depth() == 0 {
+			midAt = -1
+			onMid()
+		}
+	}
 	for i := 0; i < nops; i++ {
+		mid()
 		op := genOp(r, g, prop, lastStore)
 		if !g.do(op) {
 			continue
@@ -362,12 +412,14 @@ func genTx(r *simcore.Rand, g *exec, prop string, ti int) Tx {
 			lastStore = &o
 		}
 		if (op.K == "revert" || op.K == "keep") && sweepy && r.Bool(0.7) {
+			mid()
 			sw := Op{K: "sweep"}
 			g.do(sw)
 			tx.Ops = append(tx.Ops, sw)
 		}
 	}
 	for g.m.Depth() > 0 {
+		mid()
 		op := Op{K: "keep"}
 		if r.Bool(0.4) {
 			op.K = "revert"
@@ -375,13 +427,10 @@ func genTx(r *simcore.Rand, g *exec, prop string, ti int) Tx {
 		g.do(op)
 		tx.Ops = append(tx.Ops, op)
 	}
-	if rules == RPre158 {
-		tx.Root = r.Bool(0.6)
-	} else {
-		tx.Root = r.Bool(0.15)
+	if midAt >= 0 {
+		midAt = 0
+		mid()
 	}
-	g.endTx(&tx)
-	return tx
 }
 
 // pickAddr prefers addresses satisfying ok.
@@ -555,8 +604,13 @@ func Shrink(pl any) []any {
 		b := &p.Blocks[bi]
 		if b.CopyAt >= 0 {
 			q := clonePlan(p)
-			q.Blocks[bi].CopyAt, q.Blocks[bi].CopyTxs = -1, nil
+			q.Blocks[bi].CopyAt, q.Blocks[bi].CopyMid, q.Blocks[bi].CopyTxs = -1, -1, nil
 			add(q)
+			if b.CopyMid >= 0 {
+				q = clonePlan(p)
+				q.Blocks[bi].CopyMid = -1
+				add(q)
+			}
 		}
 		for _, s := range simcore.ShrinkSlice(b.Txs) {
 			q := clonePlan(p)
